@@ -10,6 +10,10 @@
    (104da0c): install unless the name has a value by then.  C16_installed_like_any is about the
    installing flight, C16_finish_on_known_changes_nothing / C16_flight_on_known_keeps about a flight
    that was overtaken; both are statements about the locked step in ANY store state.
+   The cache (cstate / crun) is a layer over the flight model: what Cache.Write answers to a lookup's flush is
+   an input that decides only which offered documents landed (C16_cache_is_projection,
+   C16_flush_outcome_irrelevant); every step that reports an error leaves the store as it was and offers
+   nothing to the cache (C16_error_leaves_store).
    Assumptions: the service honours cancellation; instants are distinct; in the TIMED model
    LookupSecret's unknown-name check and the DoChan call are one step (so inside a timed run the
    finishing flight is always the installing one, C16_flight_only_while_unknown; the window itself is
@@ -152,9 +156,35 @@ Theorem C16_fuel_suffices : forall (nm : name) callers scr wn (st : store V),
   run nm (fuel_for callers) (init callers scr wn st) <> None.
 Proof. exact (@fuel_suffices V). Qed.
 
+(* ---- the cache.  flushCacheLocked's error inside a lookup is only logged (store.go:410-412): the
+   model with a cache (cstate / crun: the cache's answers are an input, one per Write) projects onto the
+   flight model, so callers' results and instants, the request log and the store - the installed
+   entry, its handle, what later polls request - do NOT depend on what the cache answers; the documents
+   OFFERED to the cache do not either; only which of them landed does. *)
+Theorem C16_cache_is_projection : forall (nm : name) fuel (c : cstate V),
+  option_map (@core V) (crun nm fuel c) = run nm fuel (core c).
+Proof. exact (@crun_core V). Qed.
+
+Theorem C16_flush_outcome_irrelevant : forall (nm : name) callers scr wn (st : store V) a1 a2 fuel,
+  option_map (@core V) (crun nm fuel (cinit callers scr wn st a1)) = option_map (@core V) (crun nm fuel (cinit callers scr wn st a2))
+  /\ option_map (@offered V) (crun nm fuel (cinit callers scr wn st a1)) = option_map (@offered V) (crun nm fuel (cinit callers scr wn st a2)).
+Proof. exact (@flush_outcome_irrelevant V). Qed.
+
+(* ---- the converse half of "a failed lookup installs nothing": every step either leaves the store
+   exactly as it was and offers nothing to the cache, or hands out nothing but handles.  Hence every
+   caller that is told an error (the service's or its own context's) left the store untouched -
+   whatever the cache did (C16_cache_is_projection). *)
+Theorem C16_error_leaves_store : forall (nm : name) (s : lstate V) t e,
+  (lst (step nm s t e) = lst s /\ flushes_of nm s t e = [])
+  \/ (forall d, In d (done (step nm s t e)) -> In d (done s) \/ snd (fst d) = RHandle).
+Proof. exact (@error_leaves_store V). Qed.
+
 End C16.
 
 Print Assumptions C16_fuel_suffices.
+Print Assumptions C16_cache_is_projection.
+Print Assumptions C16_flush_outcome_irrelevant.
+Print Assumptions C16_error_leaves_store.
 Print Assumptions C16_gate.
 Print Assumptions C16_known_handle.
 Print Assumptions C16_request_iff.
@@ -240,3 +270,15 @@ Example ex_overtaken_flight :
   /\ entry (fst (lookup_install ex_st_known ex_x 2 22 1%Z)) ex_x = Some (CE 2 22 1%Z false)
   /\ ws (fst (lookup_install ex_st_known ex_x 2 22 1%Z)) = [W ex_x false].
 Proof. vm_compute. repeat split. Qed.
+
+(* a broken cache: the service answers, the cache refuses the write.  Same results, same log, same
+   store as with a working cache; the document was offered (it contains x), nothing landed. *)
+Example ex_cache_refuses :
+  let good := crun ex_x 20 (cinit [C 1000 None None; C 1500 None None] [SAns 2505 1 77] [] ex_st [true]) in
+  let bad := crun ex_x 20 (cinit [C 1000 None None; C 1500 None None] [SAns 2505 1 77] [] ex_st [false]) in
+  option_map (fun c => (done (core c), log (core c), known (lst (core c)) ex_x, map (map fst) (offered c), map (map fst) (landed c))) bad
+  = Some ([(0%nat, RHandle, 3505); (1%nat, RHandle, 3505)], [MStart 0 1000; MEnd 0 3505 OAnswered], true, [[ex_x]], [])
+  /\ option_map (@core N) good = option_map (@core N) bad
+  /\ option_map (fun c => map (map fst) (landed c)) good = Some [[ex_x]].
+Proof. vm_compute. repeat split. Qed.
+
